@@ -81,22 +81,32 @@ DecSmallFrom(s, i, acc) ==
 DecSmall(s) == IF Len(s) = 0 THEN -1 ELSE DecSmallFrom(s, 1, 0)
 
 \* ---- UTF-8 validity (the well-formed byte sequences of Unicode table 3-7) ----
-RECURSIVE Utf8From(_, _)
-Utf8From(s, i) ==
-  IF i > Len(s) THEN TRUE
-  ELSE LET b == s[i]
-           n == Len(s)
-           Cont(j) == j <= n /\ s[j] >= 128 /\ s[j] <= 191
-       IN IF b < 128 THEN Utf8From(s, i + 1)
-          ELSE IF b >= 194 /\ b <= 223 THEN Cont(i + 1) /\ Utf8From(s, i + 2)
-          ELSE IF b = 224 THEN i + 1 <= n /\ s[i + 1] >= 160 /\ s[i + 1] <= 191 /\ Cont(i + 2) /\ Utf8From(s, i + 3)
-          ELSE IF (b >= 225 /\ b <= 236) \/ b = 238 \/ b = 239 THEN Cont(i + 1) /\ Cont(i + 2) /\ Utf8From(s, i + 3)
-          ELSE IF b = 237 THEN i + 1 <= n /\ s[i + 1] >= 128 /\ s[i + 1] <= 159 /\ Cont(i + 2) /\ Utf8From(s, i + 3)
-          ELSE IF b = 240 THEN i + 1 <= n /\ s[i + 1] >= 144 /\ s[i + 1] <= 191 /\ Cont(i + 2) /\ Cont(i + 3) /\ Utf8From(s, i + 4)
-          ELSE IF b >= 241 /\ b <= 243 THEN Cont(i + 1) /\ Cont(i + 2) /\ Cont(i + 3) /\ Utf8From(s, i + 4)
-          ELSE IF b = 244 THEN i + 1 <= n /\ s[i + 1] >= 128 /\ s[i + 1] <= 143 /\ Cont(i + 2) /\ Cont(i + 3) /\ Utf8From(s, i + 4)
-          ELSE FALSE
-IsUtf8(s) == Utf8From(s, 1)
+\* Stated without recursion (a quantifier over positions), so that TLC evaluates it iteratively:
+\* every lead byte is followed by the right number of continuation bytes in the right ranges, and
+\* every continuation byte is claimed by the nearest preceding lead byte.
+IsContByte(b) == b >= 128 /\ b <= 191
+\* length of the sequence announced by lead byte b (0 = not a legal lead byte)
+SeqLen(b) == IF b < 128 THEN 1 ELSE IF b >= 194 /\ b <= 223 THEN 2 ELSE IF b >= 224 /\ b <= 239 THEN 3 ELSE IF b >= 240 /\ b <= 244 THEN 4 ELSE 0
+\* admissible range of the second byte after lead byte b
+Second(b, c) == IF b = 224 THEN c >= 160 /\ c <= 191
+                ELSE IF b = 237 THEN c >= 128 /\ c <= 159
+                ELSE IF b = 240 THEN c >= 144 /\ c <= 191
+                ELSE IF b = 244 THEN c >= 128 /\ c <= 143
+                ELSE IsContByte(c)
+IsUtf8(s) ==
+  LET n == Len(s) IN
+  \A i \in 1..n :
+    LET b == s[i] IN
+    IF IsContByte(b) THEN
+      \* claimed by a lead byte 1..3 positions back, with only continuation bytes in between
+      \/ (i >= 2 /\ ~IsContByte(s[i - 1]) /\ SeqLen(s[i - 1]) >= 2)
+      \/ (i >= 3 /\ IsContByte(s[i - 1]) /\ ~IsContByte(s[i - 2]) /\ SeqLen(s[i - 2]) >= 3)
+      \/ (i >= 4 /\ IsContByte(s[i - 1]) /\ IsContByte(s[i - 2]) /\ ~IsContByte(s[i - 3]) /\ SeqLen(s[i - 3]) = 4)
+    ELSE LET L == SeqLen(b) IN
+      /\ L >= 1 /\ i + L - 1 <= n
+      /\ (L >= 2 => Second(b, s[i + 1]))
+      /\ (L >= 3 => IsContByte(s[i + 2]))
+      /\ (L = 4 => IsContByte(s[i + 3]))
 
 \* ---- length-encoded integers / strings at position i of s ----
 LBad == [ok |-> FALSE, null |-> FALSE, v |-> Z8, next |-> 0]
